@@ -191,7 +191,17 @@ def r18_4(ctx: Ctx) -> None:
         ctx.cannot("R18.4", COLL, reduce, "_SectionedCDSTuple.__reduce__", "shape", "does not return (callable, (args...))")
         return
     target, args = rets[0].value.elts
-    names = [txt(a).replace("self.", "").lstrip("_") for a in args.elts]
+    from ..cfg import CFG
+    from ..flow import inline_reaching
+    rcfg = CFG(reduce)
+    resolved = [inline_reaching(rcfg, rets[0], a) for a in args.elts]
+    names = [txt(a).replace("self.", "").lstrip("_") for a in resolved]
+    for param, arg in zip(params, resolved):
+        stored = isinstance(arg, ast.Attribute) and txt(arg.value) == "self" and arg.attr.lstrip("_") == param
+        ctx.ob("R18.4", COLL, rets[0], "_SectionedCDSTuple.__reduce__", f"argument for `{param}`", stored,
+               "each argument handed to the constructor on unpickling is the value stored from that same parameter, read "
+               "back unchanged (a recomputed value can differ in content or order from what the in-process object holds)",
+               detail="" if stored else f"`{param}` is rebuilt as {txt(arg)[:80]}", form=txt(arg)[:100])
     ctx.ob("R18.4", COLL, rets[0], "_SectionedCDSTuple.__reduce__", "reconstructor", txt(target) in (info.name, "type(self)", "self.__class__"),
            "unpickling calls the class itself", form=txt(target))
     ctx.ob("R18.4", COLL, rets[0], "_SectionedCDSTuple.__reduce__", "arguments vs __new__ parameters",
@@ -234,7 +244,7 @@ def run(ctx: Ctx) -> None:
     ctx.rule("R18.1", "order-preserving pool API; returned value is the get() result; ordered one-CPU shortcut", floor=6)
     ctx.rule("R18.2", "timeouts surface as errors; only timeout/interrupt handled; results only from get()", floor=6)
     ctx.rule("R18.3", "call sites pass picklable module-level callables", floor=3)
-    ctx.rule("R18.4", "__reduce__ agrees with __new__; tuple layout agrees with property indices", floor=7)
+    ctx.rule("R18.4", "__reduce__ agrees with __new__; tuple layout agrees with property indices", floor=10)
     r18_1_2(ctx)
     r18_3(ctx)
     r18_4(ctx)
